@@ -104,7 +104,7 @@ class C11(Check):
     )
     assumptions = ["JSON true/false are not numbers: a boolean default never matches int/long/float/double"]
     required_labels = ["valid", "valid:s:ref", "valid:s:recursive", "valid:s:short-name-clash"] + ["mut:" + m for m in MUTATIONS]
-    quick = (2500, 1)
+    quick = (6000, 1)
     thorough = (15000, 16)
 
     def __init__(self):
